@@ -9,6 +9,7 @@ import (
 	"strconv"
 	"strings"
 	"testing"
+	"time"
 
 	"pgregory.net/rapid"
 
@@ -39,6 +40,10 @@ type Rq struct {
 	// an upstream URL, and carries a body that is itself a well-formed request. Whatever the proxy answers
 	// (the exchange itself is not compared), the exchanges after it must be unaffected.
 	BadHost string `json:"bad_host,omitempty"`
+	// Odd: the request is for a resource whose origin answers with a status line net/http's client accepts and
+	// its server cannot send (000): the proxy answers with an error of its own. Like the refused exchanges it is
+	// not compared; what follows it on the tunnel is
+	Odd bool `json:"odd_status,omitempty"`
 	// GetBody: a GET that carries a (pointless but legal) request body; whether it is answered from the store or
 	// by the origin, its body belongs to this exchange and must not be read as the start of the next one
 	GetBody bool `json:"get_body,omitempty"`
@@ -86,6 +91,9 @@ func headerSig(h http.Header) string {
 
 func runSeq(c Case, mode string) ([]obs, []string, string) {
 	org := origin.NewRaw(func(r *http.Request, _ []byte, e *origin.Entry) origin.RawResponse {
+		if r.URL.Path == "/odd" {
+			return origin.RawResponse{Raw: []byte("HTTP/1.1 000 Zero\r\nContent-Length: 300\r\nETag: \"odd\"\r\n\r\n" + strings.Repeat("z", 300))}
+		}
 		var idx int
 		fmt.Sscanf(r.URL.Path, "/p%d", &idx)
 		if idx < 0 || idx >= len(c.Resources) {
@@ -138,7 +146,7 @@ func runSeq(c Case, mode string) ([]obs, []string, string) {
 	retried := map[string]int{}
 	skipIDs := map[string]bool{}
 	for i, rq := range c.Requests {
-		if rq.GetBody {
+		if rq.GetBody || rq.Odd {
 			skipIDs[fmt.Sprintf("q%d", i)] = true
 		}
 		req := px.Req{Method: rq.Method, Host: org.Addr(), Target: fmt.Sprintf("/p%d", rq.Path), ReqID: fmt.Sprintf("q%d", i)}
@@ -154,7 +162,10 @@ func runSeq(c Case, mode string) ([]obs, []string, string) {
 				req.WantLen = rs.Len
 			}
 		}
-		if rq.BadHost != "" && mode != "one-tunnel" {
+		if rq.Odd {
+			req.Target = "/odd"
+		}
+		if (rq.BadHost != "" || rq.Odd) && mode != "one-tunnel" {
 			out = append(out, obs{err: "bad-host exchange"}) // only meaningful on a kept-alive tunnel
 			continue
 		}
@@ -183,7 +194,7 @@ func runSeq(c Case, mode string) ([]obs, []string, string) {
 		default:
 			resp, err = env.Plain(req)
 		}
-		if rq.BadHost != "" {
+		if rq.BadHost != "" || rq.Odd {
 			// not compared; a proxy may also close the tunnel after refusing the request
 			out = append(out, obs{err: "bad-host exchange"})
 			if mode == "one-tunnel" && (err != nil || resp.ReadErr != nil || resp.Header.Get("Connection") == "close") {
@@ -192,7 +203,7 @@ func runSeq(c Case, mode string) ([]obs, []string, string) {
 			}
 			continue
 		}
-		if err != nil && mode == "one-tunnel" && i > 0 && c.Requests[i-1].BadHost != "" && tun != nil && !strings.Contains(err.Error(), "malformed") {
+		if err != nil && mode == "one-tunnel" && i > 0 && (c.Requests[i-1].BadHost != "" || c.Requests[i-1].Odd) && tun != nil && !strings.Contains(err.Error(), "malformed") {
 			// the proxy closed the tunnel after the refused exchange without saying so: one fresh tunnel is allowed
 			// (bytes that do not parse as a response are not a closed tunnel: they are what the refusal left behind)
 			tun.Close()
@@ -241,7 +252,7 @@ func runSeq(c Case, mode string) ([]obs, []string, string) {
 }
 
 var sub = ev.Register("tunnel-differential",
-	"a generated sequence of 2-12 requests (GET/HEAD/POST, requests naming an unusable Host whose body is itself a well-formed request (not compared, but what follows them is), Range, hits and misses, statuses 200/204/404/500, sized and chunked bodies, per-resource unique headers and cookies) replayed against three fresh proxies with identically scripted origins: (a) one kept-alive CONNECT tunnel, (b) one tunnel per request, (c) plain proxying; oracle: per request status, body, X-Cache and end-to-end header multiset are equal across the three runs and so are the origin logs; in (a) no response carries another resource's X-Only header or cookie, Content-Range appears only on 206/416, X-Cache exactly once, Content-Length equals the body; non-trivial = >= 2 exchanges of different status or framing on the one tunnel; distinct by sequence",
+	"a generated sequence of 2-12 requests (GET/HEAD/POST, requests naming an unusable Host whose body is itself a well-formed request and requests whose origin answers with the status line 000 (neither compared, but what follows them is), Range, hits and misses, statuses 200/204/404/500, sized and chunked bodies, per-resource unique headers and cookies) replayed against three fresh proxies with identically scripted origins: (a) one kept-alive CONNECT tunnel, (b) one tunnel per request, (c) plain proxying; oracle: per request status, body, X-Cache and end-to-end header multiset are equal across the three runs and so are the origin logs; in (a) no response carries another resource's X-Only header or cookie, Content-Range appears only on 206/416, X-Cache exactly once, Content-Length equals the body; non-trivial = >= 2 exchanges of different status or framing on the one tunnel; distinct by sequence",
 	func(c Case, o *ev.Obs) *ev.Failure {
 		a, la, pa := runSeq(c, "one-tunnel")
 		b, lb, pb := runSeq(c, "tunnel-per-request")
@@ -270,6 +281,10 @@ var sub = ev.Register("tunnel-differential",
 			rq := c.Requests[i]
 			if rq.BadHost != "" {
 				o.Class("bad-host-exchange-on-tunnel")
+				continue
+			}
+			if rq.Odd {
+				o.Class("odd-status-exchange-on-tunnel")
 				continue
 			}
 			if rq.GetBody && rq.Method == "GET" && rq.Range == "" {
@@ -308,7 +323,7 @@ var sub = ev.Register("tunnel-differential",
 			}
 			for i := range p {
 				rq := c.Requests[i]
-				if rq.BadHost != "" || (rq.GetBody && rq.Method == "GET" && rq.Range == "") {
+				if rq.BadHost != "" || rq.Odd || (rq.GetBody && rq.Method == "GET" && rq.Range == "") {
 					continue
 				}
 				if x[i].err != "" || p[i].err != "" {
@@ -369,6 +384,9 @@ func drawCase(t *rapid.T) Case {
 		if rq.Method == "GET" && rq.Range == "" && rapid.IntRange(0, 7).Draw(t, "get-body") == 0 {
 			rq.GetBody = true
 		}
+		if rapid.IntRange(0, 14).Draw(t, "odd-status") == 0 {
+			rq = Rq{Method: "GET", Path: rq.Path, Odd: true}
+		}
 		if rapid.IntRange(0, 11).Draw(t, "bad-host") == 0 {
 			rq = Rq{Method: rapid.SampledFrom([]string{"POST", "POST", "HEAD", "GET"}).Draw(t, "bad-host-method"), Path: rq.Path, BadHost: rapid.SampledFrom([]string{"bad host", "example.com:abc", "a%zzb", "[::1"}).Draw(t, "host")}
 		}
@@ -378,5 +396,8 @@ func drawCase(t *rapid.T) Case {
 }
 
 func TestTunnelDifferential(t *testing.T) {
+	// a sequence takes well under a second; one that does not come back at all (an exchange the proxy never finishes
+	// can keep the harness's own shutdown of that proxy waiting) is reported with the proxy's parked goroutines
+	sub.Timeout = 3 * time.Minute
 	sub.CheckSalt(t, 1, ev.N(250, 40000), drawCase)
 }
